@@ -231,14 +231,14 @@ def cases(tier, rng):
              bytes(range(256)), b'\xff\xff\xff\xff\x00\x00\x00\x00']
     for d in fixed: yield 'crc.crc32 %s' % hx(d), 'crc.crc32-fixed'
     for b in range(256): yield 'crc.crc32 %s' % hx(bytes([b])), 'crc.crc32-1byte'
-    for n in range(0, 130 if q else 300):
-        for _ in range(3 if q else 4): yield 'crc.crc32 %s' % hx(rbytes(rng, n)), 'crc.crc32'
+    for n in range(0, 130 if q else 600):
+        for _ in range(3 if q else 6): yield 'crc.crc32 %s' % hx(rbytes(rng, n)), 'crc.crc32'
     for n in (255, 256, 257, 1000, 4096) + (() if q else (10000, 65537)):
         yield 'crc.crc32 %s' % hx(rbytes(rng, n)), 'crc.crc32-long'
     # ---- generic CRC: catalogued polynomials, every width 8..64 (random polynomials), narrow widths for the tie
     polys = list(KNOWN_POLYS)
     for w in range(8, 65):
-        for _ in range(2 if q else 4): polys.append((w, rpoly(rng, w, top=rng.random() < 0.8)))
+        for _ in range(2 if q else 12): polys.append((w, rpoly(rng, w, top=rng.random() < 0.8)))
     polys += [(w, (1 << w) - 1) for w in (8, 16, 32, 64)] + [(w, 1 << (w - 1)) for w in (8, 9, 33, 64)] + [(16, 0), (8, 1)]
     polys += [(128, rpoly(rng, 128)), (65, rpoly(rng, 65))]
     for pw, pv in polys:
@@ -264,7 +264,7 @@ def cases(tier, rng):
             yield from fix_lines(rng, rbytes(rng, n), TARGETS if (n in (4, 5, 8) and k == 0) else TARGETS[:6] + [rng.getrandbits(32)], True)
     for d in (b'\x00' * 4, b'\xff' * 4, b'\x00' * 9, b'\xff' * 9):
         yield from fix_lines(rng, d, TARGETS[:6], True)
-    for _ in range(200 if q else 600):
+    for _ in range(200 if q else 4000):
         n = rng.choice([rng.randrange(13, 70), rng.randrange(13, 70), rng.randrange(70, 400)])
         yield from fix_lines(rng, rbytes(rng, n), [rng.getrandbits(32), rng.choice(TARGETS)], False)
     d = rbytes(rng, 10)
@@ -272,7 +272,7 @@ def cases(tier, rng):
         yield 'crc.fix %s %d' % (hx(d), tg), 'crc.fix-wide'
         yield 'crc.fixpos %s 3 %d' % (hx(d), tg), 'crc.fixpos-wide'
     # ---- backward computation on CRC-32
-    for n in list(range(0, 20)) + [rng.randrange(20, 200) for _ in range(40 if q else 100)]:
+    for n in list(range(0, 20)) + [rng.randrange(20, 200) for _ in range(40 if q else 600)]:
         yield from back32_lines(rng, rbytes(rng, n))
     yield 'crc.back32 x00 -1 0', 'crc.back32-badpos'
     yield 'crc.back32 x0011 0 %d' % (1 << 35), 'crc.back32-wide'
